@@ -212,6 +212,19 @@ def run(ctx):
         sym_checks(ctx, "sdh", obj, vl, vt, freq, cj, 1e-9, sdh=True)
         if _ % 3 == 0:
             interface_checks(ctx, "sdh", obj, freq, cj, 1e-10)
+        if _ % 4 == 0:
+            # the tabulated form of the same functions (single-frequency matrices on the regular grid): S_LL, S_TT symmetric,
+            # v_T^2 S_LT = -v_L^2 S_TL^T — also after a caller has taken the grid of that size and shifted it in place
+            n_ = int(rng.integers(5, 12))
+            gi, go = scat.make_angles_grid(n_)
+            gi += 0.37
+            M_ = obj.as_single_freq_matrices(freq, n_)
+            sc_ = max(np.abs(M_[k_]).max() for k_ in KEYS) + 1e-300
+            ctx.count("sdh:matrices_after_grid_shift")
+            if (np.abs(M_["LL"] - M_["LL"].T).max() > 1e-9 * sc_ or np.abs(M_["TT"] - M_["TT"].T).max() > 1e-9 * sc_
+                    or np.abs(vt ** 2 * M_["LT"] + vl ** 2 * M_["TL"].T).max() > 1e-9 * sc_ * vl ** 2):
+                ctx.violate("sdh: the single-frequency matrices are not reciprocal / symmetric once a caller has shifted, in place, an angle grid of the same size it had obtained from make_angles_grid",
+                            {**cj, "numangles": n_}, {"kind": "matrices_symmetry", "scatterer": "sdh"})
         # correspondence of the modal sums
         alpha, beta, maxn, aLL, x, bTT = sdh_coefs(freq, radius, vl, vt)
         inc = rng.uniform(-2 * np.pi, 2 * np.pi, size=8)
